@@ -18,13 +18,13 @@ structure RangeSampler (K : Type) where
   lo : K × K × K
   hi : K × K × K
   stride : K × K × K
-deriving Repr, Inhabited
+deriving Repr, Inhabited, DecidableEq
 
 /-- the solids `_get_scene` hands to the scene: `Sphere(c, r).into()`, `RoundCone(a, b, ra, rb).into()` -/
 inductive Sdf (K : Type) where
   | sphere (c : K × K × K) (r : K)
   | cone (a b : K × K × K) (ra rb : K)
-deriving Repr, Inhabited
+deriving Repr, Inhabited, DecidableEq
 
 variable {K : Type}
 
